@@ -87,6 +87,7 @@ Definition dump_consistent (d : gdump) : bool :=
 Definition alg_oracle (vs : list N) (es : list (N * N)) (r : N) (o : alg_obs) : list bool :=
   let t := mk_tab vs es r in
   let reachable := t_all t in
+  let vv := verts vs es r in
   [ tab_ok vs es r;
     okwith (o_reach o) (fun l => seteq_b l reachable && nodup_b l);
     okwith (o_unreach o) (fun l => seteq_b l (filter (fun v => negb (memb v reachable)) vs) && nodup_b l);
@@ -95,18 +96,18 @@ Definition alg_oracle (vs : list N) (es : list (N * N)) (r : N) (o : alg_obs) : 
         && forallb (fun x => ememb x es && memb (fst x) reachable) e
         && forallb (fun x => ememb x e || negb (memb (fst x) reachable)) es end);
     okwith (o_pre o) (fun l => pre_order_ok vs es r l && seteq_b l reachable && nodup_b l);
-    okwith (o_post o) (post_order_ok vs es r);
-    okwith (o_dfs o) (fun d => match d with (v, e, _, _) => dfs_tree_ok vs es r v e && dump_consistent d end);
-    okwith (o_idom o) (idom_check vs es r);
-    okwith (o_domtree o) (fun d => match d with (v, e, _, _) => domtree_ok vs es r v e && dump_consistent d end);
-    okwith (o_doms o) (dominators_ok vs es r);
-    okwith (o_df o) (df_ok vs es r);
+    okwith (o_post o) (post_order_ok t es r);
+    okwith (o_dfs o) (fun d => match d with (v, e, _, _) => dfs_tree_ok t es r v e && dump_consistent d end);
+    okwith (o_idom o) (idom_check_t t vv);
+    okwith (o_domtree o) (fun d => match d with (v, e, _, _) => domtree_ok t vv v e && dump_consistent d end);
+    okwith (o_doms o) (dominators_ok t vv);
+    okwith (o_df o) (df_ok t vv es);
     okwith (o_tpreds o) (trans_preds_ok vs es);
-    okwith (o_acyclic_g o) (fun d => match d with (v, e, _, _) => acyclic_graph_ok vs es r v e && dump_consistent d end);
+    okwith (o_acyclic_g o) (fun d => match d with (v, e, _, _) => acyclic_graph_ok t vs es r v e && dump_consistent d end);
     okwith (o_is_acyclic o) (fun b => match has_cycle_b es reachable with Some c => Bool.eqb b (negb c) | None => false end);
-    okwith (o_reducible o) (fun b => match reducible_fe_b vs es r with Some x => Bool.eqb b x | None => false end
-                                     && Bool.eqb b (reducible_t1t2_b vs es r));
-    okwith (o_loops o) (loops_ok vs es r);
+    okwith (o_reducible o) (fun b => match reducible_fe_b t es with Some x => Bool.eqb b x | None => false end
+                                     && Bool.eqb b (reducible_t1t2_b t es r));
+    okwith (o_loops o) (loops_ok t es);
     match o_loops o, o_looptree o with
     | Ok ls, Ok (tv, te, ts, tp) =>
         looptree_ok ls tv te
@@ -238,6 +239,12 @@ Fixpoint spec_hist (s : sstate) (ops : list op) (obs : list (res unit * res view
 Inductive case :=
 | KAlg (vs : list N) (es : list (N * N)) (r : N) (o : alg_obs)
 | KHist (ops : list op) (obs : list (res unit * res views)).
+
+Arguments KAlg (vs es r)%N_scope o.
+Arguments KHist ops%N_scope obs%N_scope.
+Arguments mkObs (o_reach o_unreach o_rm_unreach o_pre o_post o_dfs o_idom o_domtree o_doms o_df o_tpreds
+                 o_acyclic_g o_is_acyclic o_reducible o_loops o_looptree o_topo)%N_scope.
+Arguments mkViews (w_num w_vertices w_edges w_succ w_pred w_succv w_predv w_out w_in w_nopred w_nosucc)%N_scope.
 
 Definition all_true (l : list bool) : bool := forallb (fun b => b) l.
 
